@@ -75,7 +75,7 @@ def _tla_op(op):
     o = op["op"]
     d = {"op": o, "only": op.get("only_ty") or "*"}
     if o == "send":
-        d.update(ty=op["ty"], n=int(op.get("n", 1)), target=op.get("target") or "*")
+        d.update(ty=op["ty"], n=int(op.get("n", 1)), target=op.get("target") or "*", same=bool(op.get("same")))
     elif o == "collect":
         d.update(expected=list(op["expected"]), buf=op.get("buf") or "default")
     elif o == "wait":
@@ -174,7 +174,8 @@ def mc_plans(chk, pid):
                 ("pipeline", sc.pipeline(retry_max=2, delay=3, fail_until=1, timeout=5), ["Inv_C31", "Inv_C04"], [], {"max_cancel": 1})],
         "C02": [("overlap", sc.overlap(1, 1, 2), ["Inv_C02"], [], {"ext_menu": [("A", None), ("D", None)], "max_ext": 1, "replay": True}),
                 ("targeted", sc.targeted(2), ["Inv_C02"], [], {"ext_menu": [("A", "c"), ("D", None)], "max_ext": 1, "replay": True}),
-                ("wait_accept", sc.wait_accept(), ["Inv_C02"], [], {"ext_menu": [("Resp", None)], "max_ext": 2})],
+                ("wait_accept", sc.wait_accept(), ["Inv_C02"], [], {"ext_menu": [("Resp", None)], "max_ext": 2}),
+                ("overlap_retry", sc.overlap_retry(1, 1, 2), ["Inv_C02"], [], {"replay": True})],
         "C05": [("attempts", sc.pipeline(retry_max=2, delay=2, fail_until=99), ["Inv_C06"], [], {}),
                 ("stop_delay", sc.pipeline(retry_max=None, stop_delay=3, delay=2, fail_until=99), [], [], {})],
         "C06": [("chain_asis", sc.pipeline(retry_max=4, wait=["chain", [5, 1]], fail_until=99), ["Inv_C06"], [],
@@ -208,6 +209,8 @@ def mc_plans(chk, pid):
                 ("waiter", sc.waiter(5), ["Inv_C11"], [], {"ext_menu": [("Resp", None)], "max_ext": 2, "track_log": True})],
         "C01": [("fanout", sc.fanout(2, 3, 2, 0, 1) if q else sc.fanout(2, 4, 2, 5, 1), ["Inv_C01", "Inv_C03a"], [], {"replay": q}),
                 ("fanout_small", sc.fanout(2, 2, 2, 0, 1), ["Inv_C01"], [], {"replay": True}),
+                # (no replay: the driver cannot tell two gates of equal-valued events apart)
+                ("fanout_equal_events", sc.fanout_dup(2, 3), ["Inv_C01"], [], {}),
                 ("collect", sc.collector(2, ("A", "A"), 3), ["Inv_C01"], [], {})],
     }
     return plans.get(pid, [])
